@@ -299,7 +299,7 @@ def run(ctx):
     T["chain"] = round(time.time() - t1, 1)
 
     pred_fail = chain_fail + pred_fail
-    corr_broken = chain_broken or corr_broken
+    corr_broken = corr_broken or chain_broken
 
     # ---- decide
     seen = set()
@@ -343,6 +343,19 @@ def chain_level(ctx):
     else:
         SB += c09chain.for_real_dpos(fam)
     SB += [c09chain.random_scenario(ctx.rng, i, fixed=True) for i in range(35 if quick else 1500)]
+    if getattr(ctx, "replay", None):
+        # bin/check C09 --replay replays/C09/<n>.json: run only the recorded chain-level scenario
+        try:
+            rp = json.load(open(ctx.replay)).get("replay", {})
+        except (OSError, ValueError):
+            rp = {}
+        one = rp.get("scenario") if isinstance(rp, dict) else None
+        if isinstance(one, dict) and "ops" in one and "blocks" in one:
+            c09chain.resolve_clusters(one)
+            if one.get("name", "").endswith("-B") or one.get("name", "").startswith("rndB"):
+                SA, SB = [], [one]
+            else:
+                SA, SB = [one], []
     fails, broken = [], None
     CHUNK = 400
     stats = {"arrivals": 0, "classes": {}, "nontriv": set()}
@@ -350,7 +363,7 @@ def chain_level(ctx):
     other_txt, other_items, other_fail = other_consensus_cases(ctx)
     fails += other_fail
     engines = {"A": (chainbin, "TestVerifC09ChainEngine", SA), "B": (dposchainbin, "TestVerifC09DposChainEngine", SB)}
-    rounds = max((len(S) + CHUNK - 1) // CHUNK for _, _, S in engines.values())
+    rounds = max(1, max((len(S) + CHUNK - 1) // CHUNK for _, _, S in engines.values()))
     for rnd in range(rounds):
         texts, parts = list(c09chain.COQ_HEADER), []
         if rnd == 0:
@@ -363,6 +376,11 @@ def chain_level(ctx):
             outs = c09chain.run_engine(ctx, binp, part, tag="c09chain%s%d" % (label, rnd), test=test)
             ctx.cov["timing_s"]["chain_engine"] = round(ctx.cov["timing_s"].get("chain_engine", 0) + time.time() - t2, 1)
             for sc, out in zip(part, outs):
+                if out.get("racy"):
+                    # still straddling a slot boundary after the engine's re-runs (starved machine):
+                    # the clock-dependent answers are not determined by the recorded clock; not compared
+                    stats["racy_skipped"] = stats.get("racy_skipped", 0) + 1
+                    continue
                 fails += c09chain.direct_predicates(sc, out)
                 stats["arrivals"] += len(out["obs"])
                 for ob in out["obs"]:
@@ -389,7 +407,7 @@ def chain_level(ctx):
                 broken = broken or ("chain-level correspondence could not be evaluated", out[-2000:])
                 continue
             for sc, o, x in zip(part, outs, d):
-                if x and not broken:
+                if x and not broken and not o.get("racy"):
                     broken = ("model (Dpos/Accept.v) and ChainService differ at arrival %d of scenario %s (engine %s)" % (x - 1, sc["name"], label),
                               dict(scenario=sc, blocks=o["blocks"], arrivals=o["obs"][:x]))
     narr = stats["arrivals"]
@@ -400,7 +418,7 @@ def chain_level(ctx):
                                                  "defect kind, any order, duplicates, producer-set changes), distinct = distinct (result class, "
                                                  "sequence of consensus call kinds) pairs")
     ctx.cov["chain_level"] = {"source_flag_f42_reorg_restores_consensus": c09chain.f42_fixed(ctx.repo), "scenarios_adapter_engine": len(SA), "scenarios_real_dpos_engine": len(SB), "corpus": len(corpus),
-                              "arrivals": narr, "result_classes": stats["classes"], "distinct_(result,call-shape)": len(stats["nontriv"])}
+                              "arrivals": narr, "racy_scenarios_skipped": stats.get("racy_skipped", 0), "result_classes": stats["classes"], "distinct_(result,call-shape)": len(stats["nontriv"])}
     return fails, broken
 
 
